@@ -129,12 +129,20 @@ def _yield(op, info=None):
 
 
 class LockW:
+    """Wraps the module's own lock object.  acquire() is a sequence of non-blocking attempts, each one
+    a yield point: the controller sees whether the REAL lock let the thread / process in, so a lock
+    that does not exclude (e.g. a per-process copy after fork) is observed instead of assumed."""
+
     def __init__(self, real, name):
         self.real, self.name = real, name
 
     def acquire(self, *a, **k):
-        _yield("acq_" + self.name)
-        return self.real.acquire(*a, **k)
+        info = None
+        while True:
+            _yield("acq_" + self.name, info)
+            if self.real.acquire(False):
+                return True
+            info = "retry"
 
     def release(self):
         _yield("rel_" + self.name)
@@ -147,6 +155,18 @@ class LockW:
     def __exit__(self, *exc):
         self.release()
         return False
+
+
+def fresh_like(lock):
+    """what a fresh interpreter would create at import time for this module-level lock"""
+    import multiprocessing.synchronize as ms
+    if isinstance(lock, ms.RLock):
+        return mp.RLock()
+    if isinstance(lock, ms.Lock):
+        return mp.Lock()
+    if type(lock).__name__ == "RLock":
+        return threading.RLock()
+    return threading.Lock()
 
 
 class FileW:
@@ -233,8 +253,8 @@ class Wrappers:
 
         pa.open = open_w
         ps.open = open_w
-        pa.filelock = LockW(threading.Lock(), "file")
-        pa.inevalfilelock = LockW(threading.Lock(), "eval")
+        pa.filelock = LockW(fresh_like(pa.filelock), "file")
+        pa.inevalfilelock = LockW(fresh_like(pa.inevalfilelock), "eval")
 
         class OsW:
             def __getattr__(self, k):
@@ -328,11 +348,25 @@ def _child(scn: Scenario, out_paths: dict, conns: dict, use_real_pool: bool):
                 status = f"err:{type(e).__name__}:{str(e)[:120]}"
             conns[actor].send(("done", status, info))
 
-        ths = [threading.Thread(target=body, args=(i + 1, c), daemon=True) for i, c in enumerate(scn.calls)]
-        for t in ths:
-            t.start()
-        for t in ths:
-            t.join()
+        if scn.workers == "processes":
+            # forked worker processes (what NonDaemonicPool / ProcessPoolExecutor do), one per call
+            pids = []
+            for i, c in enumerate(scn.calls):
+                pid = os.fork()
+                if pid == 0:
+                    try:
+                        body(i + 1, c)
+                    finally:
+                        os._exit(0)
+                pids.append(pid)
+            for pid in pids:
+                os.waitpid(pid, 0)
+        else:
+            ths = [threading.Thread(target=body, args=(i + 1, c), daemon=True) for i, c in enumerate(scn.calls)]
+            for t in ths:
+                t.start()
+            for t in ths:
+                t.join()
         _yield("join")
         if scn.normal_exit:
             for fn, a, k in w.handlers:
@@ -368,6 +402,10 @@ class SessionRun:
         self.status: dict[int, str] = {}
         self.snaps: list[dict] = []
         self.lock_owner = {"eval": None, "file": None}
+        self.lock_epoch = {"eval": 0, "file": 0}
+        self.probe_locks = scn.workers == "processes"
+        self.probed: set = set()
+        self.anomalies: list[dict] = []
         self.buf_paths: dict[str, set] = {a: set() for a in scn.aggs}
         self.events: list[dict] = []
         self.killed = False
@@ -421,10 +459,12 @@ class SessionRun:
         for a, (op, _) in sorted(self.pending.items()):
             if self.state[a] != "blocked":
                 continue
-            if op == "acq_eval" and self.lock_owner["eval"] is not None:
-                continue
-            if op == "acq_file" and self.lock_owner["file"] is not None:
-                continue
+            if op in ("acq_eval", "acq_file") and self.lock_owner[op[4:]] is not None:
+                # the lock is believed to be held: the attempt may still be granted once per holding
+                # period (probe): the real lock must refuse it
+                key = (a, op, self.lock_epoch[op[4:]])
+                if not self.probe_locks or key in self.probed:
+                    continue
             out.append(a)
         return out
 
@@ -433,16 +473,30 @@ class SessionRun:
 
     def grant(self, a):
         op, info = self.pending.pop(a)
-        if op.startswith("acq_"):
-            self.lock_owner[op[4:]] = a
-        elif op.startswith("rel_"):
-            self.lock_owner[op[4:]] = None
+        lock = op[4:] if op.startswith(("acq_", "rel_")) else None
+        believed = self.lock_owner.get(lock) if lock else None
+        if op.startswith("acq_") and believed is not None:
+            self.probed.add((a, op, self.lock_epoch[lock]))
         if info and op.endswith("_buf"):
-            agg = self.scn.aggs[0] if a == MAIN and len(self.scn.aggs) == 1 else None
             self._note_buf(a, info)
         self.state[a] = "running"
         self.pconn[a].send(("go",))
         self.settle()
+        if op.startswith("acq_"):
+            nxt = self.pending.get(a)
+            failed = nxt is not None and nxt[0] == op and nxt[1] == "retry"
+            if failed:
+                if believed is None:
+                    self.anomalies.append({"kind": "LockRefusedWhileFree", "actor": a, "lock": lock, "step": len(self.events)})
+                self.events.append({"p": a, "op": "acqfail_" + lock, "path": None, "stutter": True})
+                return "acqfail_" + lock
+            if believed is not None and believed != a:
+                self.anomalies.append({"kind": "LockNotExclusive", "actor": a, "holder": believed, "lock": lock, "step": len(self.events)})
+            self.lock_owner[lock] = a
+        elif op.startswith("rel_"):
+            if self.lock_owner[lock] == a:
+                self.lock_owner[lock] = None
+                self.lock_epoch[lock] += 1
         self.events.append({"p": a, "op": op, "path": info})
         return op
 
@@ -537,6 +591,7 @@ class History:
         self.failed_calls: list[tuple] = []
         self.snaps: list[dict] = []
         self.schedule: list = []
+        self.anomalies: list[dict] = []
         self.sessions = 0
         self.init_files = None
 
@@ -574,6 +629,11 @@ class History:
                 a = policy(run, en)
                 op = run.grant(a)
                 self.schedule.append(a)
+                if op.startswith("acqfail_"):
+                    step += 1
+                    if step > max_steps:
+                        raise Hang("session exceeds max_steps")
+                    continue
                 for ev in run.events[-1:]:
                     path = ev.get("path")
                     if path and op.endswith("_buf"):
@@ -593,6 +653,7 @@ class History:
         finally:
             run.close()
         self.snaps += run.snaps
+        self.anomalies += [dict(x, session=self.sessions) for x in run.anomalies]
         for a, s in run.status.items():
             if s.startswith("err"):
                 self.failed_calls.append((self.sessions, a, s))
